@@ -100,8 +100,7 @@ class Runner:
             for c in groups[g]:
                 evs += self.case_events(c)
             evs += relsof.get(g, [])
-            if relsof.get(g):
-                pass
+            evs.append({"e": "flush"})      # results of finished cases are only needed by their own rel events
             out.append(evs)
         return out
 
